@@ -14,7 +14,7 @@ pub fn def() -> PropDef {
         judge,
         run,
         shrink: Shrink::Bytes,
-        render: render_bytes,
+        render: render_seq_or_bytes,
         rule: "A = every input the real parsers accept in the v1 universes, UX, U2-ctl, U2-len (stride), U2-sig, U2-addr, U2-byte; each is re-parsed (v1 bytes, v1 text, v2, auto) as reported-header-only, as header ++ t and as input ++ t for every trailer t in T (all 256 single bytes, all 64 pairs over {0 . : a SP CR LF NUL}, a v1 header, a v2 header, 600 x); results must be identical and the reported length must be first-CR+2 (v1) or 16+declared length (v2); non-trivial = accepted by some entry point; distinct = hash of the input",
         assumptions: &["trailers longer than 2 bytes are the three structured ones; longer arbitrary trailers are covered by the byte-tree universes themselves (an accepted stem followed by every string up to depth d)"],
     }
@@ -164,7 +164,17 @@ fn check_v2(acc: &mut Acc, input: &[u8], h: &v2::Header, auto: bool) {
     }
 }
 
-pub fn judge(input: &[u8], acc: &mut Acc) {
+pub fn judge(case: &[u8], acc: &mut Acc) {
+    match decode_seq(case) {
+        Some(parts) => {
+            history_differential(&parts, acc, &parse_entries());
+            judge_history_case(&parts, acc, warm_all, judge_plain)
+        }
+        None => judge_plain(case, acc),
+    }
+}
+
+pub fn judge_plain(input: &[u8], acc: &mut Acc) {
     let mut accepted = false;
     let r = v1_bytes(input);
     acc.eval(1);
@@ -228,4 +238,6 @@ pub fn run(run: &Run) {
     run.explore(&u2::sig_universe());
     run.explore(&u2::addr_universe());
     run.explore(&u2::byte_universe(run.tier.pick(3, 4)));
+    explore_all(run, &seq_universes(run.tier, true, true));
+    run.explore(&super::c11::EmbeddedStructured::new(false));
 }
